@@ -2,7 +2,7 @@
    theorem needs no numeric bound on the node position.  Uses, read-only, the terminal invariant of
    Proofs/PegInv.v and the oracle hypothesis orc_sane of Proofs/PegTerm.v. *)
 From TxV Require Import Core.Base Model.PegSyntax Model.Peg Model.Build Proofs.BuildProofs Proofs.BuildObjProofs.
-From TxV Require Import Proofs.PegCongr Proofs.PegInv Proofs.PegTerm.
+From TxV Require Import Proofs.PegCongr Proofs.PegInv Proofs.PegTerm Proofs.PegErrPos.
 From TxV Require Import Model.ErrLoc Gen.SrcLoc Proofs.ErrLocProofs Proofs.ErrLocSrcProofs Model.ErrLocLoad Proofs.ErrLocLoadProofs.
 Require Import Lia.
 
@@ -107,4 +107,19 @@ Proof.
   intros g c orc memo fuel mm grp auto use_grp fs m r n kids top v top' S R Hin W H Hc.
   eapply built_object_wrapped_exception; [exact H | exact Hc |].
   unfold in_text. exact (parsed_node_in_text g c orc memo fuel _ r _ S R Hin W).
+Qed.
+
+(* C28, composed with the parser, without a numeric bound: the interpreter's failure position lies inside
+   the text (Proofs/PegErrPos.v run_syntaxerr_in_text), so the located error needs only orc_sane *)
+Theorem load_syntax_error_sane : forall g c orc memo fuel fs m,
+  orc_sane g (s_text (file_at fs m)) orc ->
+  match Peg.run g c orc memo fuel (s_text (file_at fs m)) with
+  | SyntaxErr p => load_syntax_error syntax_desc g c orc memo fuel fs m = Some (located_at fs m p)
+  | _ => load_syntax_error syntax_desc g c orc memo fuel fs m = None
+  end.
+Proof.
+  intros g c orc memo fuel fs m S.
+  pose proof (load_syntax_error_spec g c orc memo fuel fs m) as H.
+  destruct (Peg.run g c orc memo fuel (s_text (file_at fs m))) as [r|p|w] eqn:E; try exact H.
+  apply H. unfold in_text. exact (run_syntaxerr_in_text g c orc memo fuel _ p S E).
 Qed.
